@@ -117,7 +117,10 @@ fn snap(w: &World, level: Level) -> Snap {
         .scheduler_faults()
         .filter(|f| matches!(f.status, warp_core::SchedulerFaultStatus::Active))
         .count();
-    let digest = if level == Level::Full {
+    // The whole-runtime digest is a catch-all that also covers witness bookkeeping which
+    // legitimately depends on the ingress ROUTE a retry took; once a ticketed intent has been
+    // retried through plain `ingest`, only the projected fields (what the statement names) are compared.
+    let digest = if level == Level::Full && w.cross_route_retries == 0 {
         let mut h = blake3::Hasher::new();
         for (k, v) in fp::runtime_parts(&w.runtime) {
             h.update(k.as_bytes());
@@ -402,7 +405,7 @@ pub fn compare(scn_c: &Scenario, canon: &Trace, scn_v: &Scenario, var: &Trace) -
             return Some(("shape".to_owned(), format!("variant submits intent #{i} in segment {seg}, canonical does not")));
         };
         if seen.insert((seg, *i)) {
-            if c.class != o.class || !same_identity(c, o) || (c.class == SubmitClass::Error && c.detail != o.detail) {
+            if c.class != o.class || !same_identity(c, o) || (c.class == SubmitClass::Error && route_free(&c.detail) != route_free(&o.detail)) {
                 return Some((
                     "first-disposition".to_owned(),
                     format!("first arrival of intent #{i} in segment {seg}: canonical {:?}/{}/head {:?} vs {:?}/{}/head {:?}", c.class, c.detail, c.head, o.class, o.detail, o.head),
@@ -411,7 +414,7 @@ pub fn compare(scn_c: &Scenario, canon: &Trace, scn_v: &Scenario, var: &Trace) -
         } else {
             let ok = match c.class {
                 SubmitClass::Accepted | SubmitClass::Duplicate => o.class == SubmitClass::Duplicate && same_identity(c, o),
-                SubmitClass::Error => o.class == SubmitClass::Error && o.detail == c.detail,
+                SubmitClass::Error => o.class == SubmitClass::Error && route_free(&o.detail) == route_free(&c.detail),
             };
             if !ok {
                 return Some((
@@ -1691,4 +1694,11 @@ fn replay(path: &std::path::Path, mut rep: Report) -> i32 {
         println!("REPLAY: no divergence reproduced");
         0
     }
+}
+
+
+/// Error detail without the harness' own route prefix (`submit:` / `stage:`): a retry may
+/// come back through another ingress route than the original.
+fn route_free(d: &str) -> &str {
+    d.strip_prefix("submit:").or_else(|| d.strip_prefix("stage:")).unwrap_or(d)
 }
